@@ -37,4 +37,8 @@ CFG = {'assumptions': ["64*len(bm) < 2^31 (Go's int32 positions cannot overflow;
          '1-4 / 5-99 / 100-999 / 1000+, clipped, which 2^k offsets the scanned stretch crosses, offset classes of i, '
          'end, hit) resp. (number of 1-bits walked, offset classes); a widening case is non-trivial when the range is '
          'non-empty (sparse), the bitmap has a 1-bit (held, ToArray) or the range contains a 1-bit (walks, duality); '
-         'distinct = distinct (op,args)'}
+         'sessions (generated FIRST, both tiers): bitmap.Next/held cases on one held slice - every bitmap of 4 words '
+         '(thorough: also 5) over {0,1,1<<63} with at most two non-zero words x every ordered pair of NextOne/PrevOne '
+         "queries with i, end at a word boundary or next to one, run consecutively (session a b a b' a ...), and "
+         'random sessions of 600 (thorough 3000) such queries on bitmaps of 5..7 words (zero-word gaps of 2..6 words); '
+         'session shape key = (words, non-zero words, exhaustive or sampled); distinct = distinct (op,args)'}
